@@ -523,10 +523,10 @@ func (st *State) strLit(s string) *Term {
 		return t
 	}
 	name := fmt.Sprintf("str!%d!%s", len(st.strlits), sanitize(s))
-	t := st.declare(name, SStr)
-	t = &Term{S: t.S, Sort: SStr, Lit: s}
+	raw := st.declare(name, SStr)
+	t := &Term{S: raw.S, Sort: SStr, Lit: s}
 	st.strlits[s] = t
-	st.assume(Eq(st.strLen(t), IntLit(int64(len(s)))))
+	st.assume(Eq(App(SInt, st.declareFun("str_len", []Sort{SStr}, SInt), raw), IntLit(int64(len(s)))))
 	return t
 }
 
@@ -601,7 +601,9 @@ func (st *State) strConcat(a, b *Term) *Term {
 	}
 	f := st.declareFun("str_concat", []Sort{SStr, SStr}, SStr)
 	r := App(SStr, f, a, b)
-	st.assume(Eq(st.strLen(r), Add(st.strLen(a), st.strLen(b))))
+	if !strings.Contains(r.S, "!b") && !strings.Contains(r.S, "!q") {
+		st.assume(Eq(st.strLen(r), Add(st.strLen(a), st.strLen(b))))
+	}
 	return r
 }
 
